@@ -829,6 +829,30 @@ def replay(prop, rec):
             return 1
         print("replay: property holds on this case")
         return 0
+    if r.get("observable") in ("common-point-unit", "diffrep") and all(k in r for k in ("r1", "r2", "u1", "u2")):
+        wd = workdir(prop + "_replay")
+        f1, f2 = [int(x) for x in r["u1"].split()], [int(x) for x in r["u2"].split()]
+        ins = {"id": 0, "kind": "O", "r1": r["r1"], "r2": r["r2"], "u1": U(*f1), "u2": U(*f2)}
+        files = write_harness(wd, [ins], {0: True, ("cmp3", 0): False}, nchunks=1)
+        cfg = r.get("config", "g++ -std=c++14").split()
+        exe, fails, _ = build_harness(wd, files, cfg[0], cfg[1].replace("-std=", ""), "rp")
+        if exe is None:
+            print("replay: does not build:", fails[0]["output"][-1200:])
+            print(f"VIOLATION property={prop} replay={rec.get('_path', '<given>')} no-failing-input-found")
+            return 1
+        ans, _ = run_harness(exe, ["I 0"], shards=1)
+        a = kv(ans[0])
+        cpu = common_point_unit(ins["u1"], ins["u2"])
+        want = (scale(ins["u1"]) / cpu["scale"], scale(ins["u2"]) / cpu["scale"], int(origin(ins["u1"]) == cpu["origin"]))
+        got = (Fraction(int(a["k1"])), Fraction(int(a["k2"])), int(a["first"]))
+        wr = common_ty(ins["r1"], ins["r2"])
+        print("impl  :", ans[0])
+        print("oracle: (k1, k2, origin-is-first) =", want, "diff rep =", wr)
+        if got != want or a["diffrep"] != f"{INT_TYPES[wr][1]},{int(INT_TYPES[wr][2])}":
+            print(f"VIOLATION property={prop} replay={rec.get('_path', '<given>')}")
+            return 1
+        print("replay: property holds on this case")
+        return 0
     if not all(k in r for k in ("kind_inst", "r1", "r2", "u1", "u2", "v1")):
         print("replay: record has no (instance, value); it names:", rec.get("what"), "/", rec.get("broken"))
         return 1
@@ -836,7 +860,7 @@ def replay(prop, rec):
     drv = RetryDriver()
     f1, f2 = [int(x) for x in r["u1"].split()], [int(x) for x in r["u2"].split()]
     ins = {"id": 0, "kind": r["kind_inst"], "r1": r["r1"], "r2": r["r2"], "u1": U(*f1), "u2": U(*f2)}
-    files = write_harness(wd, [ins], {0: True}, nchunks=1)
+    files = write_harness(wd, [ins], {0: True, ("cmp3", 0): str(r.get("op")) == "19"}, nchunks=1)
     cfg = r.get("config", "g++ -std=c++14").split()
     exe, fails, _ = build_harness(wd, files, cfg[0], cfg[1].replace("-std=", ""), "rp")
     if exe is None:
